@@ -1,1 +1,15 @@
-/- C03 property theorems (stub: not built yet) -/
+import ThriftVerif.Lib.PegLemmas
+import ThriftVerif.Lib.Walker
+import ThriftVerif.Generated.C03Grammar
+/-
+  C03 — the parser is total and the AST is faithful to the source text.  Property theorems only.
+-/
+namespace Props.C03
+open Peg Walker
+
+/-- The grammar regenerated from parser/thrift.peg has no left recursion (the rank table strictly decreases along
+every call in head position), no `*`/`+` over an expression that can succeed on the empty string, calls only
+existing rules, and the nullable table is closed. -/
+theorem grammar_wf : wf Generated.C03.grammar Generated.C03.nul Generated.C03.rank = true := by decide
+
+end Props.C03
